@@ -34,6 +34,11 @@ class CellTranslator(AbstractTranslator):
                     lexer = Lexer.parse(cell.value, in_cell=cell)
                     ast = AstBuilder.parse(lexer, in_cell=cell)
                     code = EntryPointTokenTranslator.translate(ast, excel, context)
+                    try:
+                        compile(code, '<cell>', 'eval')
+                    except (SyntaxError, MemoryError):
+                        # the emitted expression is nested more deeply than Python compiles (a chain of hundreds of comparisons)
+                        raise E2PyclParserException(f'The formula of the cell {cell} is nested too deeply to be translated')
                 except RecursionError:
                     raise E2PyclParserException(f'The formula of the cell {cell} is nested too deeply to be translated')
                 finally:
